@@ -373,6 +373,9 @@ def gen_hyp(rng, n):
                 nv = [x if i == k else F(0) for i, x in enumerate(nv)]   # axis-parallel normals
             if any(x != 0 for x in nv):
                 break
+        if rng.random() < 0.4:
+            sc = F(10) ** rng.randint(-9, 9)
+            nv = [x * sc for x in nv]
         yield {"m": m, "normal": [Q.qs(x) for x in nv]}
 
 
@@ -412,16 +415,16 @@ def judge_hyp(inp, obs, lr):
     if obs.get("no_qr"):
         if float(np.max(np.abs(T.T @ T - np.eye(inp["m"])))) > 1e-9:
             return {"expected": "orthogonal T", "observed": T.tolist(), "tags": {"site": "orthogonal"}, "property_failure": True}
-        col = T[:, 0] * np.linalg.norm(nv)
+        col, nv = T[:, 0], nv / np.linalg.norm(nv)        # compared as unit vectors: relative to the size of the normal
         if not (close(col, nv, 1e-9) or close(-col, nv, 1e-9)):      # the orientation of the normal is not part of the property
-            return {"expected": {"first column * |n| = ± normal": nv.tolist()}, "observed": col.tolist(), "tags": {"site": "first_column"},
+            return {"expected": {"first column = ± unit normal": nv.tolist()}, "observed": col.tolist(), "tags": {"site": "first_column"},
                     "property_failure": True}
         return None
     if not lr or "err" in lr[0]:
         return {"expected": "model answer", "observed": lr, "tags": {"driver_err": True}}
     r = lr[0]["ok"]
     mx = lambda k: float(np.max(np.abs(Q.decf(r[k]))))
-    scale = 1 + max(abs(float(F(x))) for x in inp["normal"])
+    scale = max(abs(float(F(x))) for x in inp["normal"])
     contract = {"qr_orth": mx("qr_orth"), "qr_col": mx("qr_col") / scale, "inv_resid": mx("inv_resid")}
     model_applies = max(contract.values()) <= 1e-9 and mx("T_minus_iso") <= 1e-9
     # if the observed factors do not satisfy the contract, or the result is not sign(r00)*Q, the implementation computes
@@ -429,9 +432,9 @@ def judge_hyp(inp, obs, lr):
     if mx("orth") > 1e-9:
         return {"expected": "orthogonal T", "observed": mx("orth"), "tags": {"site": "orthogonal"}, "property_failure": True}
     # conclusion of hyperplaneTransform_spec on the implementation's output: first column ∥ normal, positive
-    col = T[:, 0] * np.linalg.norm(nv)
+    col, nv = T[:, 0], nv / np.linalg.norm(nv)
     if not (close(col, nv, 1e-9) or close(-col, nv, 1e-9)):
-        return {"expected": {"first column * |n| = ± normal": nv.tolist()}, "observed": col.tolist(), "tags": {"site": "first_column"},
+        return {"expected": {"first column = ± unit normal": nv.tolist()}, "observed": col.tolist(), "tags": {"site": "first_column"},
                 "property_failure": True}
     return None
 
@@ -876,6 +879,10 @@ def gen_maps_o(rng, n):
             if abs(np.linalg.det(L)) > 0.05 and np.linalg.cond(L) < 1e4:
                 break
         t = np.array([fnum(rng, cplx) for _ in range(dim)])
+        if rng.random() < 0.4:
+            t = t * 10.0 ** rng.randint(-9, 9)
+        if rng.random() < 0.3:
+            L = L * 10.0 ** rng.randint(-9, 9)
         yield {"dim": dim, "c": c, "a": enc_c(a), "s": enc_c(s), "L": enc_c(L), "t": enc_c(t), "cv": rng.random() < 0.5}
 
 
@@ -914,7 +921,11 @@ def gen_hyp_o(rng, n):
         if rng.random() < 0.2:
             k = rng.randrange(m)
             nv = [v if i == k else 0.0 for i, v in enumerate(nv)]
-        sc = math.exp(rng.uniform(-3, 3))
+        sc = 10.0 ** rng.uniform(-9, 9) if rng.random() < 0.6 else math.exp(rng.uniform(-3, 3))
+        if rng.random() < 0.15:
+            nv = [float(x) for x in rng.choice([[3, 4, 12], [0, 3, 4], [1, 0, 0], [0, 0, 1], [2, -1, 2]])][:m] + [0.0] * max(0, m - 3)
+            if not any(nv):
+                nv[0] = 1.0
         nv = [v * sc for v in nv]
         pts = [[rng.gauss(0, 1) for _ in range(m)] for _ in range(4)]
         yield {"m": m, "normal": nv, "pts": pts}
@@ -958,7 +969,17 @@ def gen_inter_o(rng, n):
         bc = rng.choice(["elementwise", "pairwise"])
         s1 = rng.choice([[], [2], [3], [2, 2]])
         s2 = s1 if bc == "elementwise" else rng.choice([[], [2], [1, 3]])
-        mk = lambda s, k: np.array([fnum(rng, cplx, 1.0) for _ in range(int(np.prod(s)) * k * amb if s else k * amb)]).reshape(tuple(s) + (k, amb))
+        def mk(s, k):
+            a = np.array([fnum(rng, cplx, 1.0) for _ in range(int(np.prod(s)) * k * amb if s else k * amb)]).reshape(tuple(s) + (k, amb))
+            if rng.random() < 0.5:
+                # spanning sets of very different magnitude, member by member (and vector by vector): the subspace is the same.
+                # lower bound 1e-5: utils.kernel decides the rank with the ABSOLUTE threshold 1e-8 on singular values, so on the
+                # clean tree spanning vectors below ~1e-7 are taken for zero (stated limit of this clause)
+                sc = 10.0 ** np.array([rng.uniform(-4, 5) for _ in range(a.size // amb)]).reshape(a.shape[:-1] + (1,))
+                if rng.random() < 0.5:
+                    sc = sc[..., :1, :] * np.ones_like(sc)           # one scale per member
+                a = a * sc
+            return a
         yield {"amb": amb, "k1": k1, "k2": k2, "broadcast": bc, "A": enc_c(mk(s1, k1)), "B": enc_c(mk(s2, k2))}
 
 
@@ -986,21 +1007,33 @@ def run_inter_o(inp):
     if out["shape"] != want:
         return out
     if d == 0:
-        out.update(inA=0.0, inB=0.0, rank_ok=True, cond=1.0)
+        out.update(inA=0.0, inB=0.0, rank_ok=True, cond=1.0, single_ok=True)
         return out
     Af, Bf = A.reshape((-1, k1, amb)), B.reshape((-1, k2, amb))
     Rf = res.reshape((-1, d, amb))
     inA = inB = 0.0
     rank_ok = True
     cond = 0.0
+    unit = lambda M: M / np.linalg.norm(M, axis=-1, keepdims=True)      # a subspace does not depend on the size of its spanning vectors
+    single_ok = True
+    ratio = 1.0
     for u in range(Rf.shape[0]):
         i, j = (divmod(u, Bf.shape[0]) if inp["broadcast"] == "pairwise" else (u, u))
-        cond = max(cond, float(np.linalg.cond(np.vstack([Af[i], Bf[j]]))))
+        Au, Bu, Ru = unit(Af[i]), unit(Bf[j]), unit(Rf[u])
+        cond = max(cond, float(np.linalg.cond(np.vstack([Au, Bu]))), float(np.linalg.cond(Au)), float(np.linalg.cond(Bu)))
+        # the code takes an SVD of the stacked spanning sets as given: rows of very different size cost eps·(largest/smallest)
+        # in accuracy on the clean tree; tolerances below are relative to that conditioning
+        nrm = np.linalg.norm(np.vstack([Af[i], Bf[j]]), axis=-1)
+        ratio = max(ratio, float(np.max(nrm) / np.min(nrm)))
+        rtol = max(1e-8, 1e4 * 2.2e-16 * ratio)
         if d:
-            inA = max(inA, _span_dist(Rf[u], Af[i]))
-            inB = max(inB, _span_dist(Rf[u], Bf[j]))
-            rank_ok = rank_ok and np.linalg.matrix_rank(Rf[u], tol=1e-8) == d
-    out.update(inA=inA, inB=inB, rank_ok=bool(rank_ok), cond=cond)
+            inA = max(inA, _span_dist(Ru, Au))
+            inB = max(inB, _span_dist(Ru, Bu))
+            rank_ok = rank_ok and np.linalg.matrix_rank(Ru, tol=10 * rtol) == d
+            # member u of the composite answer spans the same subspace as the single-object call on the same members
+            Rs = unit(np.asarray(P.Subspace(Af[i].copy()).intersect(P.Subspace(Bf[j].copy())).proj_data))
+            single_ok = single_ok and Rs.shape == Ru.shape and np.linalg.matrix_rank(np.vstack([Rs, Ru]), tol=100 * rtol * cond) == d
+    out.update(inA=inA, inB=inB, rank_ok=bool(rank_ok), cond=cond, single_ok=bool(single_ok), ratio=ratio)
     return out
 
 
@@ -1012,12 +1045,21 @@ def judge_inter_o(inp, obs, lr):
         return {"expected": obs["want_shape"], "observed": obs["shape"], "tags": dict(tags0, site="dimension")}
     if obs["cond"] > 1e5:
         return None       # nearly non-transverse sample: no claim
-    if obs["inA"] > 1e-8 * obs["cond"]:
+    tol = max(1e-8, 1e4 * 2.2e-16 * obs.get("ratio", 1.0)) * obs["cond"]
+    if obs["inA"] > tol:
         return {"expected": "rows in the first subspace", "observed": obs, "tags": dict(tags0, site="in_first")}
-    if obs["inB"] > 1e-8 * obs["cond"]:
+    if obs["inB"] > tol:
         return {"expected": "rows in the second subspace", "observed": obs, "tags": dict(tags0, site="in_second")}
+    if obs.get("ratio", 1.0) > 1e3:
+        # badly scaled spanning vectors: the returned basis (combinations of the given vectors) is itself badly conditioned on the
+        # clean tree, so numerical rank / span comparisons are not claimed; membership in both subspaces, the number of rows and
+        # "valid input does not raise" are
+        return None
     if not obs["rank_ok"]:
         return {"expected": "independent rows (dimension k1+k2-n)", "observed": obs, "tags": dict(tags0, site="rank")}
+    if not obs.get("single_ok", True):
+        return {"expected": "each member of the composite intersection spans what the single-object call gives", "observed": obs,
+                "tags": dict(tags0, site="member_vs_single")}
     return None
 
 
@@ -1046,11 +1088,15 @@ def gen_eig_o(rng, n):
             lams.append(lam)
         ev = rng.choice(["none", "first", "absent"]) if kind == "real_spectrum" else "none"
         evv = None if ev == "none" else (float(lams[0][rng.randrange(m)]) if ev == "first" else 77.0)
-        if ev == "first" and cnt > 1:
-            # make the other units share that eigenvalue or not, at random
+        if kind == "real_spectrum" and cnt > 1 and rng.random() < 0.4:
+            # members of very different magnitude inside one stack (the eigenvalues scale along): only member 0 keeps the
+            # requested eigenvalue, the others must come back as zero vectors, not as errors
             for u in range(1, cnt):
-                if rng.random() < 0.6:
-                    g = np.linalg.inv(mats[u]) if False else None
+                mats[u] = mats[u] * 10.0 ** rng.randint(-6, 6)
+            sc0 = 10.0 ** rng.randint(-6, 6)
+            mats[0] = mats[0] * sc0
+            if ev == "first":
+                evv = evv * sc0
         yield {"m": m, "shape": shape, "kind": kind, "P": enc_c(np.array(mats).reshape(tuple(shape) + (m, m))), "eigenvalue": evv}
 
 
@@ -1075,8 +1121,19 @@ def run_eig_o(inp):
             worst = max(worst, float(np.max(np.abs(w - lam * x)) / (np.max(np.abs(x)) * (1 + np.max(np.abs(Pf[u]))))))
             if inp["eigenvalue"] is not None:
                 lam_err = max(lam_err, abs(lam - inp["eigenvalue"]))
+        # member u of the composite answer is what the single-object call on member u reports (up to scale; GeometryError of a
+        # single transformation corresponds to the zero vector of a composite)
+        member_ok = True
+        if inp["shape"]:
+            for u in range(vf.shape[0]):
+                try:
+                    sv = np.asarray(P.Transformation(Pf[u].copy()).eigenvector(inp["eigenvalue"]).proj_data)
+                    both = np.vstack([sv / max(np.max(np.abs(sv)), 1e-300), vf[u] / max(np.max(np.abs(vf[u])), 1e-300)])
+                    member_ok = member_ok and np.max(np.abs(vf[u])) > 0 and np.linalg.matrix_rank(both, tol=1e-6) == 1
+                except GeometryError:
+                    member_ok = member_ok and np.max(np.abs(vf[u])) == 0
         out.update(kind="vec", resid=worst, zero_units=zero_units, lam_err=lam_err, units=int(vf.shape[0]),
-                   shape_ok=list(v.shape) == inp["shape"] + [m])
+                   shape_ok=list(v.shape) == inp["shape"] + [m], member_ok=bool(member_ok))
     except GeometryError:
         out["kind"] = "GeometryError"
     M, Mi = T.diagonalize(return_inv=True)
@@ -1105,7 +1162,10 @@ def judge_eig_o(inp, obs, lr):
             return {"expected": "one vector per unit", "observed": obs, "tags": dict(tags0, site="shape")}
         if obs["resid"] > 1e-7 * max(1.0, obs["condV"]):
             return {"expected": "v·P = λ·v for the reported eigenvector", "observed": obs, "tags": dict(tags0, site="eigenvector_residual")}
-        if obs["lam_err"] > 1e-4 * (1 + abs(inp["eigenvalue"] or 0)):
+        if not obs.get("member_ok", True):
+            return {"expected": "member i of the composite answer = the single-object answer for member i", "observed": obs,
+                    "tags": dict(tags0, site="member_vs_single")}
+        if obs["lam_err"] > 1e-4 * abs(inp["eigenvalue"] or 0) + (1e-4 if abs(inp["eigenvalue"] or 1) >= 1e-3 else 1e-7):
             return {"expected": f"eigenvalue {inp['eigenvalue']}", "observed": obs, "tags": dict(tags0, site="eigenvalue")}
         if tags0["eigenvalue"] == "none" and obs["zero_units"]:
             return {"expected": "an eigenvector for every unit", "observed": obs, "tags": dict(tags0, site="zero_vector")}
@@ -1241,9 +1301,9 @@ def run_iso16(inp):
             snap = nv.copy()
             for rep in range(2):
                 M = np.asarray(P.hyperplane_coordinate_transform(nv).proj_data)
-                col = M[:, 0] * np.linalg.norm(snap)
+                col, un = M[:, 0], snap / np.linalg.norm(snap)
                 ok = (np.max(np.abs(M.T @ M - np.eye(dim + 1))) <= 1e-9 and
-                      (close(col, snap, 1e-9) or close(-col, snap, 1e-9)) and np.array_equal(nv, snap))
+                      (close(col, un, 1e-9) or close(-col, un, 1e-9)) and np.array_equal(nv, snap))
                 check(ok, idx, st, "hyperplane_coordinate_transform" + (" after mutating its result" if rep else ""))
                 _mut(M, st["mutate"])
         elif kind == "intersect":
